@@ -1,10 +1,13 @@
 mod absdoc;
 mod docrun;
 mod fsx;
+mod keysx;
 mod libx;
+mod posx;
 mod project;
 mod render;
 mod router;
+mod urix;
 
 fn main() {
     let args: Vec<String> = std::env::args().collect();
@@ -20,6 +23,9 @@ fn main() {
         "doc-replay" => docrun::cmd_replay(rest),
         "doc-project" => docrun::cmd_project(rest),
         "lib-replay" => libx::cmd_replay(rest),
+        "keys-replay" => keysx::cmd_replay(rest),
+        "uri-replay" => urix::cmd_replay(rest),
+        "pos-replay" => posx::cmd_replay(rest),
         other => {
             eprintln!("unknown subcommand {}", other);
             2
